@@ -141,7 +141,24 @@ Definition rcfg_det (o : obs) : detail :=
 
 (* the clock of the specification: now (ms), worker rounds so far, and the time (ms) of the last event that
    delivered a reply for the schema or changed the schema / its quota *)
-Record clk := { k_now : Z; k_rounds : Z; k_quiet : Z }.
+Record clk := { k_now : Z; k_rounds : Z; k_quiet : Z;
+                k_fail : option Z    (* the time of the first of the heartbeats that have been failing in a row, if any *) }.
+
+(* NOT READY: a heartbeat that fails more than ServerHeartBeatTimeout (5 s) after the first of an uninterrupted
+   run of failed heartbeats leaves the server not ready — whatever the server info lists in between (an info
+   round that lists the same leader is not an event for the readiness; only a leader CHANGE or a successful
+   heartbeat ends the run).  With (fallback) this means: the local limiter, sized by the local limit. *)
+Definition notready_ok (k : clk) (e : ev) (o : obs) : bool :=
+  match e, k_fail k with
+  | EHb false, Some t0 => if 5000 <? k_now k - t0 then negb (o_ready o) else true
+  | _, _ => true
+  end.
+Definition next_fail (k : clk) (e : ev) : option Z :=
+  match e with
+  | EHb true | ELeader => None
+  | EHb false => match k_fail k with Some t0 => Some t0 | None => Some (k_now k) end
+  | _ => k_fail k
+  end.
 
 Definition has_counter_obs (o : obs) : bool := inner_is o WMI || inner_is o WTB.
 Definition is_omit (sv : sreply) : bool := match sv with SvOmit => true | _ => false end.
@@ -220,7 +237,7 @@ Definition obs_ok (st : static) (c : config) (str : strategy) (o : obs) : list b
 Definition step_ok (st : static) (p p' : bool) (c c' : config) (str str' : strategy) (maxrt : Z) (k : clk)
                    (prev : obs) (e : ev) (o : obs) : list bool :=
   [if p' then bound_ok c' o else absent_ok o;
-   if p' then fallback_ok st c' str' o else true;
+   (if p' then fallback_ok st c' str' o else true) && notready_ok k e o;
    if p' then inforce_ok st str' o else true;
    failing_ok c maxrt k prev e o; recovery_ok p c str maxrt k prev e o; nopanic_ok o].
 
@@ -248,7 +265,8 @@ Definition noisy (prev : obs) (e : ev) (o : obs) : bool :=
 Definition next_clk (k : clk) (prev : obs) (e : ev) (o : obs) : clk :=
   {| k_now := match e with EElapse ms => k_now k + (if ms <? 0 then 0 else ms) | _ => k_now k end;
      k_rounds := match e with EWorker _ _ _ _ => k_rounds k + 1 | _ => k_rounds k end;
-     k_quiet := if noisy prev e o then k_now k else k_quiet k |}.
+     k_quiet := if noisy prev e o then k_now k else k_quiet k;
+     k_fail := next_fail k e |}.
 Definition next_cfg (c : config) (e : ev) : config :=
   match e with ESchema k _ a b g h => {| ck := k; l1 := a; l2 := b; g1 := g; g2 := h |} | _ => c end.
 
@@ -264,4 +282,4 @@ Fixpoint hist_ok (st : static) (p : bool) (c : config) (str : strategy) (maxrt :
 
 (* a whole recorded case: the observation right after the schema was created, then the trace *)
 Definition case_ok (st : static) (str0 : strategy) (o0 : obs) (tr : list (ev * obs)) : list bool :=
-  and_lists (obs_ok st (cfg st) str0 o0) (hist_ok st true (cfg st) str0 0 {| k_now := 0; k_rounds := 0; k_quiet := 0 |} o0 tr).
+  and_lists (obs_ok st (cfg st) str0 o0) (hist_ok st true (cfg st) str0 0 {| k_now := 0; k_rounds := 0; k_quiet := 0; k_fail := None |} o0 tr).
